@@ -369,6 +369,7 @@ func c14Changed(u fw.Unit) fw.Result {
 	a := newAcc("C14", "analytic-changed")
 	q1 := "SELECT k, changed_col(true, v) OVER (PARTITION BY k) AS cc, changed_col(false, v) OVER (PARTITION BY k) AS cf FROM stream"
 	q2 := "SELECT k, changed_cols(\"c_\", true, v, w) OVER (PARTITION BY k) FROM stream"
+	q3 := "SELECT k, had_changed(true, v, w) OVER (PARTITION BY k) AS hc FROM stream"
 	vals := []any{1.0, 2.0, nil}
 	type st struct {
 		has  bool
@@ -435,6 +436,27 @@ func c14Changed(u fw.Unit) fw.Result {
 			var rows []Row
 			for i, x := range ix {
 				rows = append(rows, Row{"k": []string{"a", "b"}[x/6], "w": float64(1 + (x/3)%2), "v": vals[x%3], "id": i + 1})
+			}
+			// had_changed over two columns on the same rows: true iff any column differs from the partition's
+			// previous value of that column (every column's previous value is updated on every row)
+			if res3, e3, st3, _ := syncEval(q3, rows); e3 != "" || st3 != sched.StatusOK {
+				a.fail("C14|changed|exec", e3+" "+st3.String(), map[string]any{"sql": q3}, nil, nil)
+			} else {
+				hv, hw := map[string]*st{}, map[string]*st{}
+				for i, row := range rows {
+					k := row["k"].(string)
+					if hv[k] == nil {
+						hv[k], hw[k] = &st{}, &st{}
+					}
+					_, c1 := step(hv[k], true, row["v"])
+					_, c2 := step(hw[k], true, row["w"])
+					g := res3[i].Row
+					b, okb := truthy(g["hc"])
+					if g == nil || !okb || b != (c1 || c2) {
+						a.fail("C14|changed|had_changed-two-columns", fmt.Sprintf("%s: row %d gives %s, reference hc=%v; rows %s", q3, i+1, js(g), c1 || c2, js(rows)), map[string]any{"sql": q3, "rows": rows}, c1 || c2, g)
+						break
+					}
+				}
 			}
 			res, execErr, status, _ := syncEval(q2, rows)
 			a.r.Evaluations++
